@@ -21,7 +21,7 @@ ASSUMPTIONS = [
     'liveness ("always eventually fired") is decided at quiescence: queue empty and no runnable task for two loop iterations',
     'events cancelled only before their dispatch; a cancelled event has no handler steps',
 ]
-REQUIRED = ['closure_contains_events_nobody_handles', 'handler_suspended_by_sleep', 'raising_descendant_asks_for_feedback_of_its_own', 'success_requested_one_handler_raised_another_finished_later', 'complete_requested', 'nested_complete', 'descendant_cancelled', 'descendant_stopped', 'descendant_raised',
+REQUIRED = ['handler_flushed_the_queue_and_fired_afterwards', 'closure_contains_events_nobody_handles', 'handler_suspended_by_sleep', 'raising_descendant_asks_for_feedback_of_its_own', 'success_requested_one_handler_raised_another_finished_later', 'complete_requested', 'nested_complete', 'descendant_cancelled', 'descendant_stopped', 'descendant_raised',
             'descendant_from_generator_step', 'several_roots_in_flight', 'complete_channels_override', 'closure_depth_3plus',
             'handler_suspended_in_call_or_wait', 'call_or_wait_timed_out_in_closure', 'suspended_again_right_after_timeout',
             'root_events_fired_on_a_component_that_joins_later', 'complete_requesting_event_object_fired_again', 'feedback_event_handler_in_closure', 'derived_child_event_in_closure', 'driven_by_tick_from_the_calling_thread', 'manager_had_an_earlier_run', 'earlier_run_in_another_thread', 'earlier_run_ended_with_exit_code']
@@ -203,6 +203,10 @@ def evaluate(case, w):
             marks.add('earlier_run_ended_with_exit_code')
     if any(a[0] == 'sleep' for h in case['handlers'] for a in h['body']):
         marks.add('handler_suspended_by_sleep')
+    for h in case['handlers']:
+        acts = [a[0] for a in h['body']]
+        if 'flush' in acts and 'fire' in acts[acts.index('flush'):]:
+            marks.add('handler_flushed_the_queue_and_fired_afterwards')
     unp = set(case.get('unprobed') or ())
     if unp and sum(1 for i in w.events.values() if i['name'] in unp and i['parent'] is not None) >= 2:
         marks.add('closure_contains_events_nobody_handles')
@@ -356,6 +360,12 @@ def corpus():
                   {'name': 'note', 'flags': C}]})
     cs.append({'name': 'unhandled-events-only', 'unprobed': ['note'], 'handlers': [HD(1, 'job', [['fire', {'name': 'note'}]] * 3)],
                'fires': [{'name': 'job', 'flags': C}, {'name': 'job', 'flags': C}], 'drive': 'tick'})
+    # handlers that flush the queue themselves between two fires (plain handler, later generator step, nested two deep)
+    cs.append({'name': 'handler-flushes-then-fires', 'handlers': [
+        HD(1, 'a', [['fire', {'name': 'b'}], ['flush'], ['fire', {'name': 'c'}]]), HD(2, 'b', [['fire', {'name': 'd'}], ['flush'], ['fire', {'name': 'd'}]]),
+        HD(3, 'c', [['yield', None], ['fire', {'name': 'd'}], ['flush'], ['fire', {'name': 'e'}], ['yield', None]], gen=True),
+        HD(4, 'd', [['yield', None], ['yield', None]], gen=True), HD(5, 'e', [['yield', None], ['fire', {'name': 'f'}]], gen=True), HD(6, 'f', [])],
+        'fires': [{'name': 'a', 'flags': C}, {'name': 'c', 'flags': C}, {'name': 'a', 'flags': C}]})
     # handlers of the closure suspended by `yield sleep(0)` before and after they fire
     cs.append({'name': 'sleeping-handlers-in-closure', 'handlers': [
         HD(1, 'a', [['sleep', 0], ['fire', {'name': 'b'}], ['sleep', 0], ['sleep', 0], ['fire', {'name': 'c', 'flags': C}]], gen=True),
@@ -477,6 +487,8 @@ def gen_plain_case(rng):
                         body.append(['fire', spec])
                     elif r < 0.68:
                         body.append(['stop'])
+                    elif r < 0.72:
+                        body.append(['flush'])     # a handler may flush the queue itself: what it fires afterwards is still fired while handling its event
                     elif r < 0.85 and gen:
                         body.append(['yield', rng.choice([None, 'v'])] if rng.random() < 0.8 else ['sleep', 0])   # (`yield sleep(0)`: the other suspension)
                 if rng.random() < 0.12:
